@@ -287,6 +287,8 @@ class Wake:
         alive = set(threads)
         verdict = "ok"
         steps = 0
+        last_run = None
+        preemptions = 0
         while alive:
             runnable = [t for t in sorted(alive) if t not in blocked or blocked[t]()]
             if not runnable:
@@ -294,8 +296,15 @@ class Wake:
                 if "D" in alive and W.work > 0:
                     verdict = "lost"
                 break
-            i = path.choose(len(runnable), "sched")
-            t = runnable[i]
+            pb = getattr(self, "preempt_bound", None)
+            if pb is not None and last_run in runnable and preemptions >= pb:
+                t = last_run                     # context bound reached: the running thread keeps the CPU
+            else:
+                i = path.choose(len(runnable), "sched")
+                t = runnable[i]
+                if last_run in runnable and t != last_run:
+                    preemptions += 1
+            last_run = t
             blocked.pop(t, None)
             try:
                 ev = next(threads[t])
@@ -312,13 +321,14 @@ class Wake:
         return verdict, steps
 
 
-def explore_schedules(wk, wakers, iterations, init_flag, mode, seed=0, max_paths=400000, full_havoc=True):
+def explore_schedules(wk, wakers, iterations, init_flag, mode, seed=0, max_paths=400000, full_havoc=True, preempt_bound=None):
     """DFS over all decision vectors (scheduler choices, summary nondeterminism, symbolic branches)."""
     from explore import _expand
     stack = [[]]
     npaths = steps = queries = 0
     lost = None
     wk.full_havoc = full_havoc
+    wk.preempt_bound = preempt_bound
     while stack:
         dec = stack.pop()
         p = Path(dec, seed)
